@@ -15,7 +15,11 @@ with line numbers) built on the C03 layout model:
   * `classicTailO`     — `write_xref` + `write_trailer`: `xref_positions.iter()` collected,
                           sorted by number, looked up by number; `keys().max()`          (SORTED / order-insensitive)
   * `xrefStreamEntriesO` — `write_xref_stream`: same collection + `compressed_object_map.get`  (SORTED / lookup)
-  * `xrefStreamDictO`  — `write_xref_stream`: `for (key, value) in dict.iter()` emitted AS ITERATED (UNSORTED)
+  * `xrefStreamDictO`  — `write_xref_stream`: `dict.iter().collect()`, `sort_by_key(k)`, emit  (SORTED since
+                          fix 8d436ce0; `xrefStreamDictUnsortedO` = the code before the repair)
+  * `externalizeO`     — annotation /AP: `ap_dict.iter().collect()`, `sort_by_key(k)`, then object ids
+                          allocated in that order (SORTED since fix b6546a33; `externalizeUnsortedO` =
+                          the code before the repair)
 Clock and RNG do not occur: dates come from the document (`set_creation_date`,
 `set_modification_date`), the only RNG use is the encryption file id (excluded: unencrypted).
 Import-free apart from the C03 model.
@@ -56,8 +60,29 @@ def classicEntriesO (π : Oracle (Nat × Nat)) (x : List (Nat × Nat)) : List En
 def classicTailO (π π' : Oracle (Nat × Nat)) (x : List (Nat × Nat)) (root info pos : Nat) : List Nat :=
   classicXrefBytes (classicEntriesO π x) ++ trailerBytes (maxIdO π' x + 1) root info pos
 
-/-- the dictionary of `write_xref_stream`, emitted in iteration order -/
+/-- the dictionary of `write_xref_stream`: collected, sorted by key, emitted (pdf_writer/mod.rs,
+`entries.sort_by_key(|(k, _)| k.as_str())` in `write_xref_stream`) -/
 def xrefStreamDictO (π : Oracle DictE) (n root info : Nat) (w : Nat × Nat × Nat) (len : Nat) : List Nat :=
+  emitSortedDict π (xrefStreamDict n root info w len)
+
+/-- the same site as it was before repair 8d436ce0 (`for (key, value) in dict.iter()` emitted as
+iterated); kept as the regression the witness theorem speaks about -/
+def xrefStreamDictUnsortedO (π : Oracle DictE) (n root info : Nat) (w : Nat × Nat × Nat) (len : Nat) : List Nat :=
   emitDict (π (xrefStreamDict n root info w len))
+
+/-- `allocate_object_id()` + `write_object` per inline stream while walking a list of entries
+(annotation /AP, /N, /D dictionaries): the object NUMBER an appearance stream receives is its
+position in the walk -/
+def allocFrom {κ β} (next : Nat) : List (κ × β) → List (κ × Nat)
+  | [] => []
+  | (k, _) :: r => (k, next) :: allocFrom (next + 1) r
+
+/-- the /AP sites as repaired by b6546a33: `ap_dict.iter().collect()`, `sort_by_key(k)`, walk -/
+def externalizeO (π : Oracle DictE) (next : Nat) (streams : List DictE) : List (List Nat × Nat) :=
+  allocFrom next (sortEntries (π streams))
+
+/-- the same sites before the repair (`for (state_key, state_val) in ap_dict.iter()`) -/
+def externalizeUnsortedO {κ β} (π : Oracle (κ × β)) (next : Nat) (streams : List (κ × β)) : List (κ × Nat) :=
+  allocFrom next (π streams)
 
 end OxiVerif.C20
